@@ -1,5 +1,117 @@
-"""Design-level (implementation-shaped) models of the two searches: MMImplX.tla / MMImplG.tla."""
+"""Design-level (implementation-shaped) models of the two searches: MMImplX.tla / MMImplG.tla.
+
+TLC explores ALL instances over N geos (every eligibility assignment incl. geos absent from the table) crossed with
+families of size ranges, tolerances, n_geos_max, budget switches and abstract score tables, and checks that the loops
+as implemented refine the contract. The pre-repair variants (Fixes without one switch) are re-run to show that the
+models still expose the defects that were repaired in /repo.
+"""
+from harness import tlc
+
+MCX = """---- MODULE MC_MMImplX ----
+EXTENDS MMImplX
+mcTRs == %(trs)s
+mcCRs == %(crs)s
+mcGTols == %(gtols)s
+mcTooLarges == %(toolarges)s
+====
+"""
+CFGX = """SPECIFICATION Spec
+CONSTANTS N = %(n)d
+ Fixes = %(fixes)s
+ TRs <- mcTRs
+ CRs <- mcCRs
+ GTols <- mcGTols
+ NMaxs = %(nmaxs)s
+ TooLarges <- mcTooLarges
+ KCaps = %(kcaps)s
+ RankFams = %(rankfams)s
+ OptFams = %(optfams)s
+ Budgets = %(budgets)s
+%(props)s
+"""
+MCG = """---- MODULE MC_MMImplG ----
+EXTENDS MMImplG
+mcTRs == %(trs)s
+mcCRs == %(crs)s
+mcGTols == %(gtols)s
+====
+"""
+CFGG = """SPECIFICATION Spec
+CONSTANTS N = %(n)d
+ Fixes = %(fixes)s
+ RMax = 3
+ TRs <- mcTRs
+ CRs <- mcCRs
+ GTols <- mcGTols
+ RankFams = %(rankfams)s
+ Budgets = %(budgets)s
+%(props)s
+"""
+
+X_INV = {
+    'C01': ['PushedLegal'], 'C02': ['PushedSizesOK', 'PushedBudgetOK'], 'C03': ['Complete', 'TopK', 'RejectsOnlyUnsatisfiable'],
+    'C09': ['NoCrash'], 'C14': ['TopK'], 'C04': [], 'C13': [], 'C10': [],
+}
+G_INV = {
+    'C01': ['ResultLegal'], 'C02': ['ResultWithin', 'ResultBudget'], 'C09': ['NoCrash', 'DomOK'], 'C13': ['ResultInFeasible', 'EmptyWhenInfeasible'],
+    'C03': [], 'C14': [], 'C04': [], 'C10': ['ParamsUntouched'],
+}
+ALL_X_FIXES = '{"D4", "D7", "D13"}'
+ALL_G_FIXES = '{"D3", "D5", "D6"}'
+# (variant fixes, invariant that must break) per owner: shows the model still sees the repaired defect
+X_ASIS = {'C09': ('{"D7", "D13"}', 'NoCrash'), 'C01': ('{"D4", "D13"}', 'PushedLegal')}
+G_ASIS = {'C09': ('{"D3", "D6"}', 'NoCrash'), 'C02': ('{"D3", "D5"}', 'ResultBudget'), 'C10': ('{"D5", "D6"}', 'ParamsUntouched')}
+
+
+def xparams(thorough):
+  if thorough:
+    return dict(n=3, trs='{<<1, 3>>, <<1, 1>>, <<2, 3>>}', crs='{<<1, 3>>, <<1, 1>>, <<2, 3>>}',
+                gtols='{<<0, 0>>, <<1, 1>>, <<1, 2>>}', nmaxs='{0, 2}', toolarges='{{}, {1}}', kcaps='{1, 2}',
+                rankfams='{1, 2, 3}', optfams='{1, 2, 3}', budgets='{TRUE, FALSE}')
+  return dict(n=3, trs='{<<1, 3>>, <<2, 3>>}', crs='{<<1, 3>>, <<1, 1>>}', gtols='{<<0, 0>>, <<1, 2>>}', nmaxs='{0, 2}',
+              toolarges='{{}, {1}}', kcaps='{2}', rankfams='{1, 3}', optfams='{2, 3}', budgets='{TRUE, FALSE}')
+
+
+def gparams(thorough):
+  if thorough:
+    return dict(n=3, trs='{<<0, 0>>, <<1, 1>>, <<2, 3>>, <<1, 2>>}', crs='{<<0, 0>>, <<1, 1>>, <<2, 3>>}',
+                gtols='{<<0, 0>>, <<1, 1>>, <<1, 2>>}', rankfams='{1, 2, 3, 4}', budgets='{TRUE, FALSE}')
+  return dict(n=3, trs='{<<0, 0>>, <<2, 3>>, <<1, 2>>}', crs='{<<0, 0>>, <<1, 1>>}', gtols='{<<0, 0>>, <<1, 1>>}',
+              rankfams='{1, 3}', budgets='{TRUE, FALSE}')
+
+
+def _run(module, mc, cfg, params, fixes, invs, label, liveness=False, timeout=3000):
+  p = dict(params)
+  p['fixes'] = fixes
+  props = ''.join('INVARIANT %s\n' % i for i in invs)
+  if liveness:
+    props += 'PROPERTY Terminates\n'
+  p['props'] = props
+  r = tlc.run_tlc('MC_' + module, cfg % p, tlc.run_dir(label), workers=16, timeout=timeout,
+                  extra_texts={'MC_%s.tla' % module: mc % p})
+  tlc.require_clean(r, label)
+  return r
 
 
 def run_design_level(res, owner):
-  return None
+  """Runs the design-level models with the invariants owned by `owner`."""
+  thorough = res.tier == 'thorough'
+  xi, gi = X_INV.get(owner, []), G_INV.get(owner, [])
+  if xi:
+    r = _run('MMImplX', MCX, CFGX, xparams(thorough), ALL_X_FIXES, xi, owner + '_implx', liveness=(owner == 'C09'))
+    if r.violated:
+      raise tlc.MachineryError('MMImplX (current code) violates %s: model and code disagree or a defect is back; see run/%s_implx'
+                               % (r.violated, owner))
+    res.add_tlc(r, 'MMImplX')
+  if gi:
+    r = _run('MMImplG', MCG, CFGG, gparams(thorough), ALL_G_FIXES, gi, owner + '_implg', liveness=(owner == 'C09'))
+    if r.violated:
+      raise tlc.MachineryError('MMImplG (current code) violates %s; see run/%s_implg' % (r.violated, owner))
+    res.add_tlc(r, 'MMImplG')
+  for table, module, mc, cfg, params in ((X_ASIS, 'MMImplX', MCX, CFGX, xparams(False)), (G_ASIS, 'MMImplG', MCG, CFGG, gparams(False))):
+    if owner in table:
+      fixes, inv = table[owner]
+      r = _run(module, mc, cfg, params, fixes, [inv], owner + '_asis_' + module.lower())
+      if r.violated != inv:
+        raise tlc.MachineryError('%s with Fixes=%s no longer yields the %s counterexample' % (module, fixes, inv))
+      res.extra['pre_repair_variant_%s' % module] = {'fixes': fixes, 'violates': inv, 'trace_length': len(r.error_trace)}
